@@ -25,14 +25,14 @@ static int            LH_unlocked_write;
 
 ares_status_t LH_any_status(void) { return vp_bool() ? ARES_SUCCESS : (ares_status_t)vp_range(1, 24); }
 
-#define EQ(f) (a->f == b->f)
-static int chan_equal(const ares_channel_t *a, const ares_channel_t *b)
+#define EQ(f) (LH_ch.f == LH_snap.f)
+static int chan_equal(void)
 {
   size_t i;
-  for (i = 0; i < sizeof(a->local_dev_name); i++)
-    if (a->local_dev_name[i] != b->local_dev_name[i]) return 0;
-  for (i = 0; i < sizeof(a->local_ip6); i++)
-    if (a->local_ip6[i] != b->local_ip6[i]) return 0;
+  for (i = 0; i < sizeof(LH_ch.local_dev_name); i++)
+    if (LH_ch.local_dev_name[i] != LH_snap.local_dev_name[i]) return 0;
+  for (i = 0; i < sizeof(LH_ch.local_ip6); i++)
+    if (LH_ch.local_ip6[i] != LH_snap.local_ip6[i]) return 0;
   return EQ(flags) && EQ(timeout) && EQ(tries) && EQ(ndots) && EQ(maxtimeout) && EQ(rotate) && EQ(udp_port) && EQ(tcp_port) &&
          EQ(socket_send_buffer_size) && EQ(socket_receive_buffer_size) && EQ(domains) && EQ(ndomains) && EQ(sortlist) &&
          EQ(nsort) && EQ(lookups) && EQ(ednspsz) && EQ(qcache_max_ttl) && EQ(evsys) && EQ(optmask) && EQ(local_ip4) &&
@@ -58,9 +58,9 @@ static int chan_equal(const ares_channel_t *a, const ares_channel_t *b)
 #endif
 static void check_unchanged(void)
 {
-  if (!chan_equal(&LH_ch, &LH_snap)) LH_unlocked_write = 1;
+  if (!chan_equal()) LH_unlocked_write = 1;
 #if !defined(KF_setters_unlocked)
-  VP_ASSERT(chan_equal(&LH_ch, &LH_snap), O3_MSG);
+  VP_ASSERT(chan_equal(), O3_MSG);
 #endif
 }
 
@@ -278,7 +278,11 @@ void harness(void)
   /* O5 */
 #if !(defined(EXPECT_save_options_unlocked) && defined(KF_save_options_unlocked))
   if (LH_stub_calls > 0)
+#ifdef EXPECT_save_options_unlocked
+    VP_ASSERT(LH_acquisitions > 0, "FINDING save_options_unlocked: ares_save_options() reads shared channel state but never takes the channel lock");
+#else
     VP_ASSERT(LH_acquisitions > 0, "an entry point that touched shared channel state took the channel lock");
+#endif
 #endif
   if (LH_acquisitions > 0) VP_WITNESS("lock taken");
   if (LH_stub_calls > 0) VP_WITNESS("worker reached");
